@@ -234,7 +234,7 @@ class Guards:
             if t["k"] == "switch":
                 term = ev.operand(self.env, t["op"], (bi, None))
                 self.switches.append({"block": bi, "term": term, "targets": t["targets"], "otherwise": t["otherwise"],
-                                      "span": t.get("span")})
+                                      "span": t.get("span"), "body": body})
             elif t["k"] == "assert":
                 pass
 
@@ -290,15 +290,84 @@ class Guards:
                 out.append((sw, [v for v, _ in reach]))
         return out
 
-    def relations_at(self, block):
+    def _call_behind(self, local, depth=0):
+        """the call terminator (block, t) whose result flows into `local` through
+        Try::branch / moves / as_ref-like adapters, if it is a call of a local function"""
+        body = self.body
+        if depth > 6:
+            return None
+        for bi in sorted(body.live_blocks()):
+            bb = body.blocks[bi]
+            t = bb["term"]
+            if t["k"] == "call" and t["dest"]["l"] == local and not t["dest"]["proj"] and "fn" in t:
+                fn = t["fn"]
+                key = fn.get("resolved_key") or fn.get("key")
+                if key and key in self.ev.facts.bodies and key not in self.ev.opaque:
+                    return (bi, t, key)
+                cid = callee_id(fn)
+                if cid in ("std::ops::Try::branch",) or cid.rsplit("::", 1)[-1] in ("as_ref", "map_err", "ok", "ok_or", "ok_or_else"):
+                    a = t["args"][0]
+                    if a["k"] in ("copy", "move"):
+                        return self._call_behind(a["place"]["l"], depth + 1)
+                return None
+            for s in bb["stmts"]:
+                if s["k"] == "assign" and s["place"]["l"] == local and not s["place"]["proj"]:
+                    rv = s["rv"]
+                    if rv["k"] == "use" and rv["op"]["k"] in ("copy", "move") and not rv["op"]["place"]["proj"]:
+                        return self._call_behind(rv["op"]["place"]["l"], depth + 1)
+                    if rv["k"] == "ref" and not rv["place"]["proj"]:
+                        return self._call_behind(rv["place"]["l"], depth + 1)
+                    return None
+        return None
+
+    def callee_success_conditions(self, sw, vals, depth=0):
+        """conditions (rels, raw) that the success of a local callee implies: the switch `sw`
+        tests the Ok/Some/Continue-ness of a local call's result and is passed on a success edge"""
+        if depth > 3:
+            return [], []
+        body = self.body
+        variants, adt_, place = discr_variants(body, sw["block"])
+        if not variants or place is None or place["proj"]:
+            return [], []
+        names = dict(variants)
+        if not vals or not all(names.get(v) in ("Ok", "Some", "Continue") for v in vals if v != "otherwise"):
+            return [], []
+        if "otherwise" in vals and any(n not in ("Ok", "Some", "Continue") for v, n in variants if v not in [x for x in vals if x != "otherwise"] and v not in dict(body.blocks[sw["block"]]["term"]["targets"])):
+            return [], []
+        hit = self._call_behind(place["l"])
+        if not hit:
+            return [], []
+        cbi, ct, key = hit
+        cb = self.ev.facts.bodies[key]
+        args = [self.ev.operand(self.env, a, (cbi, None)) for a in ct["args"]]
+        cenv = Env(cb, {i + 1: x for i, x in enumerate(args)}, self.env.depth + 1)
+        cg = Guards(self.ev, cb, cenv)
+        sites = [bi for bi, si, s in cb.stmts() if s["k"] == "assign" and s["place"]["l"] == 0 and not s["place"]["proj"]
+                 and s["rv"]["k"] == "agg" and s["rv"].get("variant") in ("Ok", "Some")]
+        if not sites:
+            return [], []
+        rel_sets, raw_sets = [], []
+        for sb in sites:
+            r, w = cg.relations_at(sb, depth + 1)
+            rel_sets.append(set(r))
+            raw_sets.append(w)
+        rels = list(set.intersection(*rel_sets)) if rel_sets else []
+        raw = raw_sets[0] if len(raw_sets) == 1 else [x for x in raw_sets[0] if all(any(x[0] == y[0] and x[1] == y[1] for y in rs) for rs in raw_sets[1:])]
+        return rels, raw
+
+    def relations_at(self, block, depth=0):
         """canonical relations that hold on every path to `block` (from dominating
-        bool switches) plus raw (term, truth) pairs"""
+        bool switches, and — interprocedurally — from the success of local callees whose
+        result is tested on a dominating edge) plus raw (term, truth) pairs"""
         rels = []
         raw = []
         for sw, vals in self.dominating_conditions(block):
             t = sw["term"]
             if t[0] == "discr":
                 raw.append((t, tuple(vals), sw))
+                r2, w2 = self.callee_success_conditions(sw, vals, depth)
+                rels.extend(r2)
+                raw.extend(w2)
                 continue
             if vals == [0]:
                 truth = False
@@ -563,3 +632,27 @@ def is_absent_value(a):
     if a[0] == "phi":
         return all(is_absent_value(x) for x in a[1])
     return False
+
+
+def inlined_envs(ev, root_env, max_depth=4):
+    """[(body, env)] for a root body and every local callee it (transitively) calls, each with
+    the call-site arguments substituted (closures created in them are not included)"""
+    out = [(root_env.body, root_env)]
+    seen = set()
+
+    def rec(env, depth):
+        if depth >= max_depth:
+            return
+        body = env.body
+        for bi, t in body.calls():
+            if "fn" not in t:
+                continue
+            key = t["fn"].get("resolved_key") or t["fn"].get("key")
+            if key and key in ev.facts.bodies and key not in ev.opaque and (key, body.key, bi) not in seen:
+                seen.add((key, body.key, bi))
+                args = [ev.operand(env, a, (bi, None)) for a in t["args"]]
+                cenv = Env(ev.facts.bodies[key], {i + 1: x for i, x in enumerate(args)}, env.depth + 1)
+                out.append((cenv.body, cenv))
+                rec(cenv, depth + 1)
+    rec(root_env, 0)
+    return out
